@@ -449,4 +449,20 @@ theorem join_shape {l r t : TType} (h : joinIR l r = some t) :
       · simp at h
   · simp at h
 
+/-! ## keyed lookups: the reported type of the looked-up value is the type of the field the emitted join node inserts -/
+
+theorem rootIR_eq_reported (r : TType) (exprTypes : List HType) (allMatches : Bool) :
+    rootIR r exprTypes allMatches = rootReported r exprTypes allMatches := by
+  unfold rootIR rootReported chooseNode
+  cases keyType r with
+  | none => rfl
+  | some kr =>
+    simp only []
+    cases allMatches <;> cases isIntervalIndex r exprTypes <;> cases (kr.map (·.2) == exprTypes) <;> simp [nodeRoot]
+
+/-- what the node choice must respect: an `intervalJoin` emitted WITHOUT the product flag for an `all_matches` lookup inserts a
+struct where the front end reports an array -/
+theorem intervalJoin_needs_product (r : TType) : nodeRoot r (.intervalJoin false) ≠ .array (valueStruct r) := by
+  simp [nodeRoot, valueStruct]
+
 end HailVerif.TableType
